@@ -60,7 +60,7 @@ pub fn check_spec(property: &str) -> Option<CheckSpec> {
         "C02" => CheckSpec {
             property: "C02",
             level: "fault_enumeration",
-            scenarios: vec![(Arc::new(builder::BuilderScn), 1_500, 60_000)],
+            scenarios: vec![(Arc::new(builder::BuilderScn), 2_500, 80_000)],
         },
         "C08" => CheckSpec {
             property: "C08",
